@@ -54,6 +54,7 @@ def run(ctx: Ctx) -> None:
     frames(ctx, py, rs)
     low_power(ctx, py, rs)
     pending_not_lost(ctx, py, rs)
+    reti_source_stable(ctx, rs)
 
 
 # ---------------------------------------------------------------------------
@@ -546,6 +547,26 @@ def low_power(ctx: Ctx, py: PyProgram, rs: RustProgram) -> None:
                               "the instruction executor can be reached while the CPU is halted (no dominating `!self.state.is_halted()`)",
                               f"{rel}:{n['ln']}", guards=[rs_guard_text(x) for x in guards])
             ctx.sample({"site": f"execute@{rel}:{n['ln']}", "guards": [rs_guard_text(x) for x in guards][:6]})
+    # HALT ends when a status bit is pending - masked or not: the wake-up is guarded by the status register only, never by the mask
+    cdefs = rs_defs(clo["body"])
+    try:
+        imr_off = rs.eval_const(isa.LIB_RS, "IMEM_IMR_OFFSET")
+    except Exception:  # noqa: BLE001 - the constant may live elsewhere; the architectural offset is 0xFB
+        imr_off = 0xFB
+    for n in walk(clo["body"]):
+        if rs_is_mcall(n, "set_halted", "self.state") and n["args"] and expr_text(n["args"][0]) == "false":
+            node = g.node_of(n)
+            ctx.need(node is not None, "set_halted(false) has no CFG node")
+            n_sites += 1
+            gs = [(a, pol) for a, pol, _o in g.guards_of(node) if isinstance(a, dict)]
+            leaves = [rs_leaves(a, cdefs) for a, _p in gs]
+            if not any("IMEM_ISR_OFFSET" in lv or "#252" in lv for lv in leaves):
+                ctx.violation("C12.4/halt-wake-isr", key_of(rel, "CoreRuntime::step", "set_halted(false)"), "the Rust HALT wake-up is not guarded by a pending status bit", f"{rel}:{n['ln']}")
+            for (a, pol), lv in zip(gs, leaves):
+                if any("IMR" in x.upper() for x in lv) or f"#{imr_off}" in lv:
+                    ctx.violation("C12.4/halt-wake-masked", key_of(rel, "CoreRuntime::step", "HALT wake-up depends on the interrupt mask"),
+                                  f"the Rust HALT wake-up runs only when `{expr_text(a)[:80]}` is {str(pol).lower()}, which reads the interrupt mask: a status bit that becomes pending while masked no longer ends HALT "
+                                  "(the CPU resumes exactly when a status bit becomes pending; delivery, not wake-up, is what the mask gates)", f"{rel}:{n['ln']}")
     # OFF: in the outer for loop, from `is_off()` true the closure statement is reached only through set_power_state(Running)
     g2 = cfgmod.build_rs(fn.node, fn.qual)
     ctx.cfg_nodes += len(g2.nodes)
@@ -624,6 +645,10 @@ def low_power(ctx: Ctx, py: PyProgram, rs: RustProgram) -> None:
         if not ok:
             ctx.violation("C12.4/halt-wake-isr", key_of(EMU, "PCE500Emulator.step", "halted=False"), "HALT wake-up is not guarded by a pending status bit (ISR != 0)",
                           f"{EMU}:{gp.nodes[w].line}", guards=[py_guard_text(x) for x in gs])
+        for a, pol, _o in gs:
+            if isinstance(a, ast.AST) and any("IMR" in x for x in py_leaves(a, d)):
+                ctx.violation("C12.4/halt-wake-masked", key_of(EMU, "PCE500Emulator.step", "HALT wake-up depends on the interrupt mask"),
+                              f"the HALT wake-up runs only when `{unparse(a)[:80]}` is {str(pol).lower()}, which reads the interrupt mask: a status bit pending while masked no longer ends HALT", f"{EMU}:{gp.nodes[w].line}")
     ctx.instance("C12.4/low-power", "executor unreachable while halted/off; wake-up guarded by status bits (Rust closure + outer loop, Python step)", n_sites, 8)
 
 
@@ -763,3 +788,43 @@ def _reads_isr(e: ast.expr, d: dict, depth: int = 0) -> bool:
     if isinstance(e, ast.Call) and isinstance(e.func, ast.Attribute) and e.func.attr == "read_byte" and e.args:
         return "ISR" in _imem_tag(py_leaves(e.args[0], d) | {unparse(e.args[0])})
     return False
+
+
+def reti_source_stable(ctx: Ctx, rs: RustProgram) -> None:
+    """The Rust RETI epilogue clears the status bit named by `irq_source` (falling back to the mask recorded at delivery).  So between
+    delivery and RETI nothing the step loop runs may re-point `irq_source` at another source: a TimerContext method that assigns
+    `irq_source = Some(..)` when a source fires may be called from CoreRuntime::step only under `!self.timer.in_interrupt` -
+    otherwise an expiry inside another source's handler makes RETI clear the *new* request (lost untaken) and leaves the old one
+    set (its handler runs twice).  Necessary for 'a pending request is not lost', given this epilogue."""
+    firing: set[str] = set()
+    for fn in rs.fns_in("core/src/timer.rs"):
+        if fn.body is None or fn.impl_ty != "TimerContext":
+            continue
+        g = None
+        for n in walk(fn.body):
+            if n.get("k") == "assign" and expr_text(n["l"]).replace(" ", "") == "self.irq_source" and expr_text(n["r"]).startswith("Some("):
+                g = g or cfgmod.build_rs(fn.node, fn.qual)
+                node = g.node_of(n)
+                guards = [expr_text(a).replace(" ", "") for a, pol, _o in (g.guards_of(node) if node is not None else []) if isinstance(a, dict)]
+                pols = {expr_text(a).replace(" ", ""): pol for a, pol, _o in (g.guards_of(node) if node is not None else []) if isinstance(a, dict)}
+                if pols.get("self.in_interrupt") is False or pols.get("self.irq_source.is_none()") is True:
+                    continue
+                firing.add(fn.name)
+    ctx.need(len(firing) >= 2, f"TimerContext methods assigning irq_source on expiry: found only {sorted(firing)}")
+    step = rs.fn(isa.LIB_RS, "CoreRuntime::step")
+    clos = [c for c in walk(step.body) if c.get("k") == "closure" and any(rs_is_mcall(n, "execute", "self.executor") for n in walk(c["body"]))]
+    ctx.need(len(clos) >= 1, "CoreRuntime::step: closure containing executor.execute not found")
+    g = cfgmod.build_rs_closure(clos[0], "CoreRuntime::step::closure")
+    n = 0
+    for c in walk(clos[0]["body"]):
+        if c.get("k") == "mcall" and c["m"] in firing and expr_text(c["recv"]).replace(" ", "") == "self.timer":
+            n += 1
+            node = g.node_of(c)
+            ctx.need(node is not None, f"step: call of {c['m']} has no CFG node")
+            pols = {expr_text(a).replace(" ", ""): pol for a, pol, _o in g.guards_of(node) if isinstance(a, dict)}
+            if pols.get("self.timer.in_interrupt") is not False:
+                ctx.violation("C12.2/reti-source-stable", key_of(step.file, "CoreRuntime::step", f"{c['m']} while a handler runs"),
+                              f"`self.timer.{c['m']}(..)` at line {c['ln']} can run while in_interrupt is set: when another source fires there it re-points irq_source, the handler's RETI then clears the new "
+                              "request's status bit (the request is lost without being taken) and leaves the delivered one set (its handler is entered again)", f"{step.file}:{c['ln']}")
+    ctx.instance("C12.2/reti-source-stable", "calls from CoreRuntime::step to TimerContext methods that re-point irq_source on expiry: each only outside interrupt context", n, 1)
+    ctx.sample({"irq_source_assigning_methods": sorted(firing)})
